@@ -460,7 +460,9 @@ def register_make_filename(ix):
                     "mf_modified(self, vctx(value)) and v_has_context(value) implies result[0] == vdata(value)",
                     "mf_modified(self, vctx(value)) and not v_has_context(value) implies result[0] is value"],
                 modifies=[]))
-    ix.add(Contract(MF, "MakeFilename.__call__", props=["C19"], cases=cases))
+    # C13: "consumers keep what they were given: MakeFilename" -- the frame (`modifies=[]`: the stored static context is the
+    # same after every value) is the C13 part of this contract
+    ix.add(Contract(MF, "MakeFilename.__call__", props=["C19", "C13"], cases=cases))
     ix.add(Contract(MF, "MakeFilename._set_context", props=["C19"], dict_model="Val",
                     params={"self": "Self[MakeFilename]", "context": "Dict"}, result=None,
                     post_class="MakeFilenameCtx",
